@@ -74,98 +74,112 @@ func main() {
 		}
 	}
 	r.Sample(map[string]any{"expiry": 61000, "blockTimestamp": 1000, "window": 60000, "valid": true})
-	// ---- (2) Transaction.PreExecute and (3) admission / (4) block verification
-	const ts = int64(10_000)
-	vsched.FreezeClock(ts)
-	rules := rig.DefaultRules()
-	rules.ValidityWindow = 5_000
-	rules.ChainID = ids.ID{9}
-	wrongChain := ids.ID{8}
-	vw := &validitywindowtest.MockTimeValidityWindow[*chain.Transaction]{}
-	rng := []int64{-1, -7, ts - 1, ts, ts + 1, 0}
-	mkActions := func(n int, s, e int64) []chain.Action {
-		var as []chain.Action
-		for i := 0; i < n; i++ {
-			a := &rig.OpAction{Compute: 1, Nonce: uint64(i), Start: -1, End: -1}
-			if i == n-1 {
-				a.Start, a.End = s, e // the last action carries the activation range
+	// ---- (2) Transaction.PreExecute and (3) admission / (4) block verification, at a whole-second and at
+	// a mid-second time, under action limits 16 and 255
+	totalCases := 0
+	for _, cfg := range []struct {
+		ts         int64
+		maxActions uint8
+		bigCounts  []int
+	}{{10_000, 16, []int{255, 256, 257, 272, 512}}, {10_500, 16, nil}, {10_000, 255, []int{254, 255, 256, 257, 511, 512}}} {
+		ts, maxActions, bigCounts := cfg.ts, cfg.maxActions, cfg.bigCounts
+		vsched.FreezeClock(ts)
+		rules := rig.DefaultRules()
+		rules.MaxActionsPerTx = maxActions
+		rules.ValidityWindow = 5_000
+		rules.ChainID = ids.ID{9}
+		wrongChain := ids.ID{8}
+		vw := &validitywindowtest.MockTimeValidityWindow[*chain.Transaction]{}
+		rng := []int64{-1, -7, ts - 1, ts, ts + 1, 0}
+		mkActions := func(n int, s, e int64) []chain.Action {
+			var as []chain.Action
+			for i := 0; i < n; i++ {
+				a := &rig.OpAction{Compute: 1, Nonce: uint64(i), Start: -1, End: -1}
+				if i == n-1 {
+					a.Start, a.End = s, e // the last action carries the activation range
+				}
+				as = append(as, a)
 			}
-			as = append(as, a)
+			return as
 		}
-		return as
-	}
-	type txCase struct {
-		n            int
-		as, ae       int64
-		us, ue       int64
-		chainOK      bool
-		expiry       int64
-	}
-	var cases []txCase
-	for _, n := range []int{1, 15, 16, 17} {
-		for _, chainOK := range []bool{true, false} {
-			for _, exp := range []int64{ts - 1000, ts, 10_001, 11_000, 15_000, 16_000} {
-				cases = append(cases, txCase{n, -1, -1, -1, -1, chainOK, exp})
+		type txCase struct {
+			n       int
+			as, ae  int64
+			us, ue  int64
+			chainOK bool
+			expiry  int64
+		}
+		var cases []txCase
+		for _, n := range []int{1, 15, 16, 17} {
+			for _, chainOK := range []bool{true, false} {
+				for _, exp := range []int64{ts - 1000, ts, 10_000, 10_001, 11_000, 15_000, 16_000} {
+					cases = append(cases, txCase{n, -1, -1, -1, -1, chainOK, exp})
+				}
 			}
 		}
-	}
-	for _, as := range rng {
-		for _, ae := range rng {
-			cases = append(cases, txCase{2, as, ae, -1, -1, true, 12_000})
-			cases = append(cases, txCase{2, -1, -1, as, ae, true, 12_000})
-			if r.Thorough() {
-				for _, us := range rng {
-					for _, ue := range rng {
-						cases = append(cases, txCase{1, as, ae, us, ue, true, 12_000})
+		// counts that wrap when narrowed to 8 or 9 bits
+		for _, n := range bigCounts {
+			cases = append(cases, txCase{n, -1, -1, -1, -1, true, 12_000})
+		}
+		for _, as := range rng {
+			for _, ae := range rng {
+				cases = append(cases, txCase{2, as, ae, -1, -1, true, 12_000})
+				cases = append(cases, txCase{2, -1, -1, as, ae, true, 12_000})
+				if r.Thorough() {
+					for _, us := range rng {
+						for _, ue := range rng {
+							cases = append(cases, txCase{1, as, ae, us, ue, true, 12_000})
+						}
 					}
 				}
 			}
 		}
-	}
-	cases = append(cases, txCase{0, -1, -1, -1, -1, true, 12_000})
-	for _, c := range cases {
-		env := rig.NewEnv(rig.EnvConfig{Rules: rules, Balances: []uint64{1 << 50}, Height: 5, Timestamp: ts - 1000})
-		cid := rules.ChainID
-		if !c.chainOK {
-			cid = wrongChain
-		}
-		tx := env.MakeTx(0, mkActions(c.n, c.as, c.ae), ts, rig.TxOpts{Expiry: c.expiry, ChainID: &cid, HasAuthRng: true, AuthStart: c.us, AuthEnd: c.ue})
-		want := c.chainOK && inWindow(c.expiry, ts, rules.ValidityWindow) && c.n <= int(rules.MaxActionsPerTx) &&
-			(c.n == 0 || active(c.as, c.ae, ts)) && active(c.us, c.ue, ts)
-		rep := map[string]any{"actions": c.n, "actionRange": []int64{c.as, c.ae}, "authRange": []int64{c.us, c.ue}, "chainIDMatches": c.chainOK, "expiry": c.expiry, "timestamp": ts, "window": rules.ValidityWindow}
-		// (2)
-		evals++
-		fm := ifees.NewManager(nil)
-		for d := fees.Dimension(0); d < fees.FeeDimensions; d++ {
-			fm.SetUnitPrice(d, 1)
-		}
-		perr := tx.PreExecute(rig.Ctx, fm, env.BH, env.Rules, env.DB, ts)
-		report := func(path string, err error) {
-			if (err == nil) != want {
-				kind := "executes-outside-validity"
-				if want {
-					kind = "rejects-valid"
-				}
-				r.Violation("C10:"+path+":"+kind, fmt.Sprintf("%s: err=%v, expected executable=%v for %v", path, err, want, rep), rep)
+		cases = append(cases, txCase{0, -1, -1, -1, -1, true, 12_000})
+		totalCases += len(cases)
+		for _, c := range cases {
+			env := rig.NewEnv(rig.EnvConfig{Rules: rules, Balances: []uint64{1 << 50}, Height: 5, Timestamp: ts - 1000})
+			cid := rules.ChainID
+			if !c.chainOK {
+				cid = wrongChain
 			}
-		}
-		report("preexecute", perr)
-		// (3) admission at the same (frozen) time
-		evals++
-		report("admission", env.NewPreExecutor(vw).PreExecute(rig.Ctx, env.ParentOutput(5, ts-1000).ExecutionBlock, env.DB, tx))
-		// (4) a block with this transaction at that timestamp
-		evals++
-		blk := env.MakeBlock(env.DB, ids.Empty, 6, ts, []*chain.Transaction{tx})
-		_, verr := env.NewProcessor(1, 1, workers.NewSerial(), vw, nil).Execute(rig.Ctx, env.DB, blk, true)
-		report("block", verr)
-		if !want {
-			nontriv += 3
+			tx := env.MakeTx(0, mkActions(c.n, c.as, c.ae), ts, rig.TxOpts{Expiry: c.expiry, ChainID: &cid, HasAuthRng: true, AuthStart: c.us, AuthEnd: c.ue})
+			want := c.chainOK && inWindow(c.expiry, ts, rules.ValidityWindow) && c.n <= int(rules.MaxActionsPerTx) &&
+				(c.n == 0 || active(c.as, c.ae, ts)) && active(c.us, c.ue, ts)
+			rep := map[string]any{"actions": c.n, "actionRange": []int64{c.as, c.ae}, "authRange": []int64{c.us, c.ue}, "chainIDMatches": c.chainOK, "expiry": c.expiry, "timestamp": ts, "window": rules.ValidityWindow}
+			// (2)
+			evals++
+			fm := ifees.NewManager(nil)
+			for d := fees.Dimension(0); d < fees.FeeDimensions; d++ {
+				fm.SetUnitPrice(d, 1)
+			}
+			perr := tx.PreExecute(rig.Ctx, fm, env.BH, env.Rules, env.DB, ts)
+			report := func(path string, err error) {
+				if (err == nil) != want {
+					kind := "executes-outside-validity"
+					if want {
+						kind = "rejects-valid"
+					}
+					r.Violation("C10:"+path+":"+kind, fmt.Sprintf("%s: err=%v, expected executable=%v for %v", path, err, want, rep), rep)
+				}
+			}
+			report("preexecute", perr)
+			// (3) admission at the same (frozen) time
+			evals++
+			report("admission", env.NewPreExecutor(vw).PreExecute(rig.Ctx, env.ParentOutput(5, ts-1000).ExecutionBlock, env.DB, tx))
+			// (4) a block with this transaction at that timestamp
+			evals++
+			blk := env.MakeBlock(env.DB, ids.Empty, 6, ts, []*chain.Transaction{tx})
+			_, verr := env.NewProcessor(1, 1, workers.NewSerial(), vw, nil).Execute(rig.Ctx, env.DB, blk, true)
+			report("block", verr)
+			if !want {
+				nontriv += 3
+			}
 		}
 	}
 	r.Sample(map[string]any{"actions": 17, "limit": 16, "executable": false})
 	r.Cov["evaluations"] = evals
 	r.Cov["distinct_nontrivial"] = nontriv
-	r.Cov["rule"] = fmt.Sprintf("(1) VerifyTimestamp over %d expiry x %d block-timestamp boundary values (incl. negatives, +-1, +-1s) x %d windows; (2-4) %d transactions (action counts 0,1,15,16,17; expiry around the interval; chain id ok/wrong; action and auth activation ranges over {-1,-7,0,ts-1,ts,ts+1}^2) through Transaction.PreExecute, PreExecutor.PreExecute at a frozen clock and Processor.Execute; non-trivial = valid interval triples / rejected transactions", len(vals), len(vals), len(windows), len(cases))
+	r.Cov["rule"] = fmt.Sprintf("(1) VerifyTimestamp over %d expiry x %d block-timestamp boundary values (incl. negatives, +-1, +-1s) x %d windows; (2-4) %d transactions at clock 10.000 s and 10.500 s (action counts 0,1,15,16,17 and 254..257, 272, 511, 512 under limits 16 and 255; expiry around the interval; chain id ok/wrong; action and auth activation ranges over {-1,-7,0,ts-1,ts,ts+1}^2) through Transaction.PreExecute, PreExecutor.PreExecute at a frozen clock and Processor.Execute; non-trivial = valid interval triples / rejected transactions", len(vals), len(vals), len(windows), totalCases)
 	r.Assumptions = []string{"|values| <= 2^62+1000 (no int64 overflow of timestamp + window)", "negative activation bounds mean 'no bound' (the -1 sentinel of the interface)"}
 	r.Finish()
 }
